@@ -130,4 +130,9 @@ def run_suite(name, tier, seed):
 
 def check(prop, tier, seed):
     suites = [s for s in PROP_SUITES[prop] if s in SUITES[tier]]
-    return [run_suite(s, tier, seed) for s in suites]
+    out = [run_suite(s, tier, seed) for s in suites]
+    if prop == "C01":
+        # creation during deserialisation: the save/load traces charge reused handles to C01
+        from . import saveload
+        out += saveload.check("C01", tier, seed)
+    return out
